@@ -550,7 +550,13 @@ class Module:
             return st.toks[val.tok].origin
         return getattr(val, 'origin', None)
 
-    def check_record_cells(self, b, st, rec, v, expect, props, what):
+    def norm_origin(self, o, u):
+        """origins of cells of the source record compare modulo zero-size alias groups of variant u"""
+        if u is not None and isinstance(o, tuple) and len(o) >= 2 and o[-2] == 'cell':
+            return o[:-1] + (self.cn(u, o[-1]),)
+        return o
+
+    def check_record_cells(self, b, st, rec, v, expect, props, what, src_variant=None):
         """expect: name -> (origin or None for 'may be absent (Copy)')"""
         if not isinstance(rec, Rec) or rec.v != v:
             self.add(props, 'G-SHAPE', b.key, '%s: result is not a CappedRecord%d (%r)' % (what, v, rec))
@@ -567,7 +573,9 @@ class Module:
             if len(grp) > 1 and c.size == 0:
                 wants = [expect.get(g.name) for g in grp]
                 gots = [self.origin(st, x) for x in cell.values()] if cell is not None else []
-                if sorted(map(repr, [w for w in wants if w is not None])) != sorted(map(repr, gots)) and None not in wants:
+                nw = [self.norm_origin(w, src_variant) for w in wants if w is not None]
+                ng = [self.norm_origin(g, src_variant) for g in gots]
+                if sorted(map(repr, nw)) != sorted(map(repr, ng)) and None not in wants:
                     self.add(props, 'G-FIELD', b.key, '%s: zero-size fields %s at %d hold values of origins %s, expected %s' % (
                         what, [g.name for g in grp], c.k, gots, wants), key='%s.%s' % (b.key.replace(self.prefix, ''), c.name))
                 continue
@@ -585,7 +593,7 @@ class Module:
             if callable(want):
                 ok = want(got)
             else:
-                ok = (got == want)
+                ok = (got == want) or self.norm_origin(got, src_variant) == self.norm_origin(want, src_variant)
             if not ok:
                 self.add(props, 'G-FIELD', b.key, '%s: field `%s` (%s at %d) holds a value of origin %s, expected %s' % (
                     what, c.name, c.ty, c.k, got, want if not callable(want) else want.__doc__), key='%s.%s' % (b.key.replace(self.prefix, ''), c.name))
@@ -714,7 +722,7 @@ class Module:
                 expect[c.name] = ('arg', 1, 0, 'cell', c.name)
             for c in plus:
                 expect[c.name] = ('arg', 1, 1, c.name) if c.name in given else None
-            self.check_record_cells(b, st, rec, v, expect, props, 'conversion %d->%d' % (u, v))
+            self.check_record_cells(b, st, rec, v, expect, props, 'conversion %d->%d' % (u, v), src_variant=u)
             # order: reads of the old record precede ManuallyDrop::new, the copy follows it,
             # writes follow the copy; the copy's source sits inside the ManuallyDrop
             ev = st.events
@@ -771,8 +779,26 @@ class Module:
         props = ['C16']
         for st, ret in self.returns(b, res, props):
             done = defaultdict(int)
+            oids = {e[1][:2]: e[2] for e in st.events if e[0] == 'arg_rec'}
+            self_oid, src_oid = oids.get(('arg', 1)), oids.get(('arg', 2))
+            names_at = defaultdict(list)
+            for c in self.F[v]:
+                names_at[(c.k, c.ty)].append(c.name)
             for e in st.events:
                 if e[0] == 'call' and e[1].endswith('::clone_from'):
+                    a = e[4]
+                    if len(a) == 2 and a[0][0] == 'ref_cell' and a[1][0] == 'ref_cell':
+                        dst, src = a[0], a[1]
+                        dn = names_at.get((dst[2], dst[3]))
+                        sn = names_at.get((src[2], src[3]))
+                        if dst[1] == self_oid and src[1] == src_oid and dn and sn and self.cn(v, dn[0]) == self.cn(v, sn[0]) and dst[4]:
+                            done[self.cn(v, dn[0])] += 1
+                        else:
+                            self.add(props, 'G-CLONE', b.key, 'clone_from assigns %s of %s from %s of %s' % (dn, 'self' if dst[1] == self_oid else 'another record', sn, 'source' if src[1] == src_oid else 'another record'), key='clone_from.%d.%s' % (v, dn[0] if dn else dst[2]))
+                    else:
+                        self.add(props, 'G-CLONE', b.key, 'clone_from call with unexpected operands %s' % (a,))
+                    continue
+                if e[0] == 'call' and e[1].endswith('::clone_from_DISABLED'):
                     a = e[4]
                     if len(a) == 2 and a[0][0] == 'ref_cell' and a[1][0] == 'ref_cell':
                         dst, src = a[0], a[1]
@@ -788,7 +814,7 @@ class Module:
                     o = e[4]
                     # destination cell name
                     dn = [c.name for c in self.F[v] if (c.k, c.ty) == (e[2], e[3])]
-                    if o and o[:3] == ('arg', 2, '*') and dn and self.cn(v, o[-1]) == self.cn(v, dn[0]):
+                    if e[1] == self_oid and o and o[:3] == ('arg', 2, '*') and dn and self.cn(v, o[-1]) == self.cn(v, dn[0]):
                         done[self.cn(v, dn[0])] += 1
                     else:
                         self.add(props, 'G-CLONE', b.key, 'clone_from stores a value of origin %s into %s' % (o, dn or (e[2], e[3])), key='clone_from.%d.%s' % (v, dn[0] if dn else e[2]))
